@@ -38,6 +38,7 @@ MonInit(c) ==
    runLo |-> 0, runHi |-> 0,                      \* C04: length of the current motion run (two readings)
    cLast |-> 0, cN |-> 0,                         \* continuous sink
    sPend |-> FALSE, sN |-> 0, sLast |-> 0,        \* test sink
+   afterReset |-> TRUE,                           \* no frame accepted yet since start-up / the last camera reset
    v |-> {}]                                      \* violations raised by the event being folded
 
 (* The recording window, declaratively: open on the half-open interval       *)
@@ -157,12 +158,17 @@ FramePost(m0, b0, E) ==       \* m0: observer state before the event, b0: after 
         \cup If(~m0.taint["s"] /\ ~sShould /\ OfSink(cs, "s") # <<>>, "C17:test-without-request")
         \cup If("calls2" \in DOMAIN E /\ ProjSink(cs, "m") # E.calls2, "C17:motion-recording-disturbed")
         \cup If("err" \in DOMAIN E /\ E.err, "C13:valid-frame-rejected")
+        \* ---------------- C09 at the processor: the first frame after start-up or a camera reset has nothing to be
+        \* compared with, whatever it contains
+        \cup If(m0.afterReset /\ E.motion, "C09:motion-on-first-frame-after-reset")
+        \* ---------------- C12 recoverability: whatever failed, a recording is over once MaxF frames have gone by
+        \cup If(inRec /\ ~clean /\ k1 >= MMax(cfg.MaxF, 1) /\ ~hasStop, "C12:recording-never-ends-after-failure")
   IN [b0 EXCEPT !.v = @ \cup viol,
                 !.k = IF b0.open["m"] THEN k1 ELSE 0,
                 !.mm = IF b0.open["m"] THEN mm1 ELSE 0,
                 !.runLo = IF stopped THEN 0 ELSE lo1,
                 !.runHi = IF stopped THEN 0 ELSE hi1,
-                !.sPend = FALSE,
+                !.sPend = FALSE, !.afterReset = FALSE,
                 !.taint["m"] = IF b0.open["m"] THEN @ ELSE FALSE]
 
 FrameStep(m0, E) ==
@@ -182,6 +188,7 @@ InterruptPost(m0, b0, E) ==
   IN [b0 EXCEPT !.v = @ \cup viol, !.k = 0, !.mm = 0,
                 !.runLo = 0,
                 !.runHi = IF stopped THEN 0 ELSE @,
+                !.afterReset = IF bad THEN @ ELSE TRUE,
                 !.taint["m"] = IF b0.open["m"] THEN @ ELSE FALSE]
 
 InterruptStep(m0, E) ==
